@@ -29,6 +29,15 @@ pub struct LoopCase8 {
     /// parameters with index % 2 == skip are left untouched by the optimizer
     pub skip: usize,
     pub vseed: u64,
+    /// activation of the last layer: 0 none, 1 sigmoid, 2 softmax
+    #[serde(default)]
+    pub last_act: u8,
+    /// cross-entropy instead of mse (needs a sigmoid / softmax last layer)
+    #[serde(default)]
+    pub cross_entropy: bool,
+    /// inputs are multiplied by this (0 = 1): saturated outputs, probabilities far below 1e-12
+    #[serde(default)]
+    pub input_scale: f64,
 }
 
 struct PartialStep {
@@ -61,10 +70,13 @@ impl CaseKind for LoopCase8 {
         use corgi::array::Array;
         use refmodel::ops::Act;
         let mut k = KeyHasher::new("c08-loop");
-        k.u(self.input as u64).u(self.hidden as u64).u(self.output as u64).u(self.batch as u64).u(self.iterations as u64).u(self.skip as u64);
+        k.u(self.input as u64).u(self.hidden as u64).u(self.output as u64).u(self.batch as u64).u(self.iterations as u64).u(self.skip as u64).u(self.last_act as u64).b(self.cross_entropy).u(self.input_scale as u64);
         let classes = vec!["kind:training-loop-with-user-optimizer".to_string()];
         let res = guarded(|| -> Result<usize, String> {
-            let specs = vec![LayerSpec::Dense { input: self.input, output: self.hidden, act: Act::Sigmoid }, LayerSpec::Dense { input: self.hidden, output: self.output, act: Act::None }];
+            let last = [Act::None, Act::Sigmoid, Act::Softmax][self.last_act as usize % 3];
+            let ce = self.cross_entropy && last != Act::None;
+            let scale = if self.input_scale == 0.0 { 1.0 } else { self.input_scale };
+            let specs = vec![LayerSpec::Dense { input: self.input, output: self.hidden, act: if scale == 1.0 { Act::Sigmoid } else { Act::None } }, LayerSpec::Dense { input: self.hidden, output: self.output, act: last }];
             let acts = acts_for(&specs);
             let mut layers = build_layers(&specs, &acts, self.vseed, VKind::Small, None);
             // handles on the parameter arrays (same arrays: gradients are visible through them)
@@ -76,7 +88,7 @@ impl CaseKind for LoopCase8 {
                 held.push((format!("initial parameter {}", i), p.clone(), d, b));
             }
             let opt = PartialStep { lr: 0.25, skip: self.skip % 2 };
-            let cost = corgi::cost::mse();
+            let cost = if ce { corgi::cost::cross_entropy() } else { corgi::cost::mse() };
             let refs: Vec<&mut dyn corgi::layer::Layer> = layers.iter_mut().map(|b| &mut **b as &mut dyn corgi::layer::Layer).collect();
             let mut model = corgi::model::Model::new(refs, &opt, &cost);
             let xd = if self.batch == 0 { vec![self.input] } else { vec![self.batch, self.input] };
@@ -91,9 +103,9 @@ impl CaseKind for LoopCase8 {
                 Ok(held.len())
             };
             for it in 0..self.iterations {
-                let x = arr(&xd, &gen_vals(self.vseed + it as u64, xd.iter().product(), VKind::Small));
+                let x = arr(&xd, &gen_vals(self.vseed + it as u64, xd.iter().product(), VKind::Real).into_iter().map(|v| v * scale).collect::<Vec<f64>>());
                 let out = model.forward(x.clone());
-                let t = arr(out.dimensions(), &gen_vals(self.vseed ^ (it as u64 + 31), out.values().len(), VKind::Small));
+                let t = arr(out.dimensions(), &gen_vals(self.vseed ^ (it as u64 + 31), out.values().len(), if ce { VKind::PosReal } else { VKind::Real }));
                 let (d, b) = snap(&x);
                 held.push((format!("input of iteration {}", it), x, d, b));
                 let (d, b) = snap(&out);
@@ -124,9 +136,168 @@ impl CaseKind for LoopCase8 {
     }
 }
 
+/// the operations whose operands are watched by `ArgCase8`
+fn arg_ops() -> Vec<refmodel::ir::OpKind> {
+    use refmodel::ir::OpKind::*;
+    vec![Add, Sub, Mul, Div, Axpy(1.5), Neg, ScaleR(0.3), Powf(2.0), Powf(0.5), Ln, Exp, Recip, Sum(1), Reshape(vec![0]), Relu, Sigmoid, Softmax, ActRelu, ActSigmoid, ActSoftmax, Matmul { ta: false, tb: true, has_c: true }, Conv { sr: 1, sc: 1 }]
+}
+
+#[derive(Clone, Debug, serde::Serialize, serde::Deserialize)]
+pub enum ArgTarget {
+    Op(refmodel::ir::OpKind),
+    Cost { cross_entropy: bool },
+}
+
+/// One call of an operation / activation closure / cost closure on arrays of arbitrary (full-mantissa, widely
+/// spread) values, optionally followed by a backward pass: every operand, a clone of it and a reshaped view of it
+/// must hold the same bit patterns afterwards.
+#[derive(Clone, Debug, serde::Serialize, serde::Deserialize)]
+pub struct ArgCase8 {
+    pub target: ArgTarget,
+    pub vseed: u64,
+    pub tracked: bool,
+    pub backward: bool,
+}
+
+impl CaseKind for ArgCase8 {
+    const KIND: &'static str = "c08-args";
+    fn size(&self) -> usize {
+        8
+    }
+    fn sample(&self) -> Value {
+        json!({"single-call": format!("{:?}", self.target), "tracked": self.tracked, "backward": self.backward})
+    }
+    fn run(&self) -> Outcome {
+        use crate::exec::*;
+        use crate::vals::*;
+        use corgi::array::Array;
+        use corgi::numbers::Float;
+        use refmodel::ir::OpKind::*;
+        let mut k = KeyHasher::new("c08-args");
+        k.s(&format!("{:?}", self.target)).b(self.tracked).b(self.backward).u(self.vseed % 4);
+        let classes = vec!["kind:single-call".to_string()];
+        let z = self.vseed;
+        // value styles: ordinary reals; arguments up to the largest that keeps exp finite; tiny magnitudes
+        // (probabilities far below 1e-12); magnitudes spread element by element
+        let arg_max = if IS_F32 { 80.0 } else { 700.0 };
+        let style = z % 4;
+        let vals = |salt: u64, n: usize, positive: bool, bounded: bool| -> Vec<f64> {
+            let clampv = |v: Vec<f64>| v.into_iter().map(|x: f64| x.clamp(-arg_max, arg_max)).collect::<Vec<f64>>();
+            match style {
+                0 => gen_vals(z ^ salt, n, if positive { VKind::PosReal } else { VKind::Real }),
+                1 => clampv(wide_vals(z ^ salt, n, 5, 4, !positive)),
+                _ if bounded => clampv(wide_vals(z ^ salt, n, 3, 7, !positive)),
+                2 => wide_vals(z ^ salt, n, if IS_F32 { -20 } else { -200 }, if IS_F32 { 10 } else { 150 }, !positive),
+                _ => wide_vals(z ^ salt, n, 0, if IS_F32 { 8 } else { 40 }, !positive),
+            }
+        };
+        type Snap = (Vec<usize>, Vec<u64>);
+        let snap = |a: &Array| -> Snap { (a.dimensions().to_vec(), a.values().iter().map(|v| (*v as f64).to_bits()).collect::<Vec<u64>>()) };
+        let res = guarded(|| -> Result<usize, String> {
+            let mk = |d: &[usize], v: Vec<f64>| {
+                let a = arr(d, &v);
+                if self.tracked {
+                    a.tracked()
+                } else {
+                    a
+                }
+            };
+            // operands first, then everything that watches them: a clone and a reshaped view of each
+            let (name, operands): (String, Vec<Array>) = match &self.target {
+                ArgTarget::Cost { cross_entropy } => {
+                    let d = [vec![2, 3], vec![4], vec![2, 1, 2]][(z >> 8) as usize % 3].clone();
+                    let n: usize = d.iter().product();
+                    (if *cross_entropy { "cost::cross_entropy".into() } else { "cost::mse".into() }, vec![mk(&d, vals(1, n, true, false)), arr(&d, &gen_vals(z ^ 2, n, VKind::PosReal))])
+                }
+                ArgTarget::Op(op) => {
+                    let positive = matches!(op, Ln | Powf(_));
+                    let bounded = matches!(op, Exp | Sigmoid | Softmax | ActSigmoid | ActSoftmax);
+                    let shapes: Vec<Vec<usize>> = match op {
+                        Add | Sub | Mul | Div | Axpy(_) => vec![vec![2, 3], vec![3]],
+                        Matmul { .. } => vec![vec![2, 3], vec![2, 3], vec![2]],
+                        Conv { .. } => vec![vec![1, 3, 3], vec![2, 1, 2, 2]],
+                        _ => vec![[vec![2, 3], vec![5], vec![2, 1, 3]][(z >> 8) as usize % 3].clone()],
+                    };
+                    (op.name().to_string(), shapes.iter().enumerate().map(|(i, d)| mk(d, vals(i as u64 + 1, d.iter().product(), positive, bounded))).collect())
+                }
+            };
+            let mut watched: Vec<(String, Array, Snap)> = vec![];
+            for (i, o) in operands.iter().enumerate() {
+                let n = o.values().len();
+                watched.push((format!("operand {}", i), o.clone(), snap(o)));
+                let view = o.reshape(vec![n]);
+                let sv = snap(&view);
+                watched.push((format!("a reshaped view of operand {}", i), view, sv));
+            }
+            let result: Array = match &self.target {
+                ArgTarget::Cost { cross_entropy } => {
+                    let f = if *cross_entropy { corgi::cost::cross_entropy() } else { corgi::cost::mse() };
+                    f(&operands[0], &operands[1])
+                }
+                ArgTarget::Op(op) => {
+                    let a = &operands[0];
+                    match op {
+                        Add => a + &operands[1],
+                        Sub => a - &operands[1],
+                        Mul => a * &operands[1],
+                        Div => a / &operands[1],
+                        Axpy(kk) => Array::axpy(*kk as Float, a, &operands[1]),
+                        Matmul { .. } => Array::matmul((a, false), (&operands[1], true), Some(&operands[2])),
+                        Conv { .. } => a.conv(&operands[1], (1, 1)),
+                        Neg => -a,
+                        ScaleR(kk) => a * (*kk as Float),
+                        Powf(e) => a.powf(*e as Float),
+                        Ln => a.ln(),
+                        Exp => a.exp(),
+                        Recip => a.reciprocal(),
+                        Sum(kk) => a.sum(*kk),
+                        Reshape(_) => a.reshape(vec![a.values().len()]),
+                        Relu => a.relu(),
+                        Sigmoid => a.sigmoid(),
+                        Softmax => a.softmax(),
+                        ActRelu => (corgi::activation::relu())(a.clone()),
+                        ActSigmoid => (corgi::activation::sigmoid())(a.clone()),
+                        ActSoftmax => (corgi::activation::softmax())(a.clone()),
+                        _ => return Err("unsupported operation".into()),
+                    }
+                }
+            };
+            let sr = snap(&result);
+            let compare = |when: &str, watched: &Vec<(String, Array, Snap)>| -> Result<(), String> {
+                for (what, a, s0) in watched {
+                    let s1 = snap(a);
+                    if &s1 != s0 {
+                        let first = s0.1.iter().zip(&s1.1).position(|(x, y)| x != y).unwrap_or(0);
+                        return Err(format!("MUTATED: {} of {} changed {}: element {} was {:?}, is {:?} (dims {:?} -> {:?})", what, name, when, first, s0.1.get(first).map(|b| f64::from_bits(*b)), s1.1.get(first).map(|b| f64::from_bits(*b)), s0.0, s1.0));
+                    }
+                }
+                Ok(())
+            };
+            compare("during the call", &watched)?;
+            if self.backward && self.tracked {
+                result.backward(None);
+                watched.push(("the result".into(), result.clone(), sr));
+                compare("during the backward pass", &watched)?;
+            }
+            Ok(watched.len())
+        });
+        let label = match &self.target {
+            ArgTarget::Cost { cross_entropy } => (if *cross_entropy { "cross_entropy" } else { "mse" }).to_string(),
+            ArgTarget::Op(op) => op.name().to_string(),
+        };
+        match res {
+            Ok(Ok(n)) => Outcome::pass(n > 0, k.finish(), classes),
+            Ok(Err(m)) if m.starts_with("MUTATED") => Outcome::fail("mutated", format!("mutated:single-call:{}", label), format!("{} ({:?})", m, self), k.finish(), classes),
+            Ok(Err(m)) => Outcome::discard(&m),
+            Err(p) => Outcome::discard(&format!("the call panicked: {}", p)),
+        }
+    }
+}
+
 pub fn dispatch(kind: &str, v: &Value) -> Option<Outcome> {
     match kind {
         "c08-loop" => serde_json::from_value::<LoopCase8>(v.clone()).ok().map(|c| c.run()),
+        "c08-args" => serde_json::from_value::<ArgCase8>(v.clone()).ok().map(|c| c.run()),
         "history" => serde_json::from_value::<HistCase>(v.clone()).ok().map(|c| c.run()),
         _ => None,
     }
@@ -145,8 +316,25 @@ pub fn run(ctx: &Ctx) -> i32 {
         st.merge(ctx.run_prop(name, profile_total(t, p), move || recipe_strategy(len), move |r| Some(HistCase { oracle: "c08".into(), hist: elaborate(&cfg, r) })));
     }
     st.merge(ctx.run_indexed("training-loops-with-user-optimizer", 3 * 3 * 4 * 2, None, |i| {
-        Some(LoopCase8 { input: 1 + (i % 3) as usize, hidden: 2 + ((i / 3) % 3) as usize, output: 1 + (i % 2) as usize, batch: ((i / 9) % 4) as usize, iterations: 3, skip: (i / 36) as usize, vseed: i * 77 + ctx.seed })
+        Some(LoopCase8 { input: 1 + (i % 3) as usize, hidden: 2 + ((i / 3) % 3) as usize, output: 1 + (i % 2) as usize, batch: ((i / 9) % 4) as usize, iterations: 3, skip: (i / 36) as usize, vseed: i * 77 + ctx.seed, last_act: 0, cross_entropy: false, input_scale: 0.0 })
     }));
+    // the same loops with sigmoid / softmax outputs, cross-entropy, and inputs large enough to saturate the outputs
+    {
+        let scales: [f64; 4] = if crate::exec::IS_F32 { [1.0, 3.0, 8.0, 20.0] } else { [1.0, 12.0, 60.0, 200.0] };
+        st.merge(ctx.run_indexed("training-loops-with-saturated-outputs", 2 * 2 * 4 * 3 * 2, None, |i| {
+            Some(LoopCase8 { input: 1 + (i % 2) as usize, hidden: 2 + (i % 3) as usize, output: 2 + ((i / 2) % 2) as usize, batch: ((i / 16) % 3) as usize, iterations: 2, skip: (i / 48) as usize, vseed: i * 131 + ctx.seed, last_act: 1 + ((i / 2) % 2) as u8, cross_entropy: (i / 2) % 4 < 3, input_scale: scales[((i / 4) % 4) as usize] })
+        }));
+    }
+    // single calls: the operands of every operation, activation closure and cost closure are unchanged afterwards
+    {
+        let ops = arg_ops();
+        let no = ops.len() as u64 + 2;
+        st.merge(ctx.run_indexed("operands-of-single-calls-unchanged", no * t.pick(60, 1500), None, |i| {
+            let z = refmodel::vals::mix(i ^ 0xC08 ^ ctx.seed.wrapping_mul(0x9E3779B1));
+            let k = (i % no) as usize;
+            Some(ArgCase8 { target: if k < ops.len() { ArgTarget::Op(ops[k].clone()) } else { ArgTarget::Cost { cross_entropy: k == ops.len() } }, vseed: z, tracked: (z >> 50) & 1 == 1, backward: (z >> 51) & 1 == 1 })
+        }));
+    }
     if ctx.tier == Tier::Thorough {
         st.merge(ctx.run_fuzz(20000, ctx.threads, &dispatch));
     }
